@@ -9,6 +9,8 @@ import Aqv.Lemmas.RlpCanon
 import Aqv.Lemmas.RlpTyped
 import Aqv.Lemmas.RlpStream
 import Aqv.Lemmas.RlpRaw
+import Aqv.Lemmas.RlpRawSpec
+import Aqv.Lemmas.RlpStreamTyped
 import Aqv.Lemmas.Translated.Rlp
 namespace Aqv.Props.C11
 open Aqv Aqv.Rlp
@@ -450,5 +452,99 @@ set_option maxRecDepth 4000 in
 example : RlpRaw.rawReadKind [0xff, 0x7f, 0xff, 0xff, 0xff, 0xff, 0xff, 0xff, 0xf7, 0x00] = .error .valueTooLarge := by rfl
 set_option maxRecDepth 4000 in
 example : RlpRaw.rawReadKind [0xc3, 0x01, 0x02, 0x03, 0x04] = .ok (.list, 1, 3) := by rfl
+
+/-- `split_spec`: the Go-shaped `Split` of raw.go returns (kind, content, rest) exactly when the `readHead`-based shallow
+    reader (`RlpRaw.shallowSplit`: canonical header, content within the input, canonical single-byte rule) accepts,
+    with the same three parts; otherwise it returns an error (never a panic, `split_total`). -/
+theorem split_spec (bs : Bytes) (r : RlpRaw.K × Bytes × Bytes) :
+    RlpRaw.split bs = .ok r ↔ RlpRaw.shallowSplit bs = some r :=
+  RlpRaw.split_ok_iff bs r
+
+theorem split_spec_reject (bs : Bytes) : (∃ e, RlpRaw.split bs = .err e) ↔ RlpRaw.shallowSplit bs = none := by
+  have h := RlpRaw.split_eq_shallow bs
+  have hp := RlpRaw.split_ne_panic bs
+  cases hs : RlpRaw.split bs with
+  | ok r => rw [hs] at h; simp only [RlpRaw.Out.toOption] at h; rw [← h]; simp
+  | err e => rw [hs] at h; simp only [RlpRaw.Out.toOption] at h; rw [← h]; simp
+  | panic => exact absurd hs hp
+
+/-- `countValues_spec`: `CountValues bs = n` exactly when `bs` is a concatenation of `n` values each accepted by the
+    shallow (header-only) reader (`RlpRaw.shallowCount`, fuel = length). -/
+theorem countValues_spec (bs : Bytes) (n : Nat) :
+    RlpRaw.countValues bs = .ok n ↔ RlpRaw.shallowCount bs.length bs = some n :=
+  RlpRaw.countValues_ok_iff bs n
+
+/-- `dec`-level facts transfer to raw.go: if the strict decoder accepts `bs` as a list, `SplitList bs` returns exactly the
+    payload (the concatenated canonical encodings of the elements) with nothing left, and `CountValues` of that payload is
+    the number of elements. -/
+theorem dec_list_split (bs : Bytes) (xs : List Item) (h : dec bs = .ok (.list xs)) :
+    RlpRaw.splitList bs = .ok (encList xs, []) ∧ RlpRaw.countValues (encList xs) = .ok xs.length :=
+  RlpRaw.dec_list_split bs xs h
+
+example : dec [0xc3, 0x01, 0x82, 0x04] = .error .tooLarge := by rfl
+example : dec [0xc4, 0x01, 0x82, 0x04, 0x00] = .ok (.list [.str [1], .str [4, 0]]) := by rfl
+set_option maxRecDepth 4000 in
+example : RlpRaw.shallowSplit [0xc4, 0x01, 0x82, 0x04, 0x00, 0x09] = some (.list, [0x01, 0x82, 0x04, 0x00], [0x09]) := by rfl
+
+/-- `stream_refines_typed_partial` — PARTIAL: covers the typed primitives `uint(maxbits)` and `Bool()` of the Stream machine
+    (the decoders of `Ty.uint`/`Ty.bool`); NOT yet covered: `Bytes`/big, `Raw`, and the composite decoders.
+    On every ready, re-armed stream state with something to read — at top level or positioned at an element inside an open
+    list — the machine's `uint(8k)` / `Bool()` accept exactly when the typed-layer primitives `Rlp.readUint k` /
+    `Rlp.readBool` accept the window the stream may read from, with the same value, the input advanced by the same number
+    of bytes (`Step`), the cache re-armed, and nothing allocated. -/
+theorem stream_refines_typed_partial (k : Nat) (s : RlpStream.St) (hr : RlpStream.Ready s) (hk : s.kind = none)
+    (ha : 1 ≤ RlpStream.avail s) :
+    ((∀ n rest, Rlp.readUint k (RlpStream.win s) = .ok (n, rest) →
+        ∃ s', RlpStream.uint k s = (.ok n, s') ∧ RlpStream.Step s ((RlpStream.win s).length - rest.length) s' ∧
+          s'.kind = none ∧ rest = RlpStream.win s' ∧ s'.alloc = s.alloc) ∧
+     (∀ e, Rlp.readUint k (RlpStream.win s) = .error e → ∃ e' s', RlpStream.uint k s = (.error e', s') ∧ s'.alloc = s.alloc)) ∧
+    ((∀ b rest, Rlp.readBool (RlpStream.win s) = .ok (b, rest) →
+        ∃ s', RlpStream.bool s = (.ok b, s') ∧ RlpStream.Step s ((RlpStream.win s).length - rest.length) s' ∧
+          s'.kind = none ∧ rest = RlpStream.win s' ∧ s'.alloc = s.alloc) ∧
+     (∀ e, Rlp.readBool (RlpStream.win s) = .error e → ∃ e' s', RlpStream.bool s = (.error e', s') ∧ s'.alloc = s.alloc)) :=
+  ⟨RlpStream.uint_refines k s hr hk ha, RlpStream.bool_refines s hr hk ha⟩
+
+/-- … instantiated for a fresh `NewStream(r, len)` over a non-empty input: `Stream.Uint()` (= `uint(64)`) accepts exactly
+    what the typed decoder of `uint64` accepts, with the same value and the same unread rest. -/
+theorem stream_uint64_top (bs : Bytes) (hne : bs ≠ []) (n : Nat) :
+    (∃ s', RlpStream.uint 8 (RlpStream.newStream bs bs.length) = (.ok n, s')) ↔
+      (∃ rest, decTy (.uint 64) bs = .ok (.num n, rest)) := by
+  have hr := RlpStream.newStream_ready bs
+  have hw := RlpStream.newStream_win bs
+  have hav := RlpStream.newStream_avail bs
+  have ha : 1 ≤ RlpStream.avail (RlpStream.newStream bs bs.length) := by
+    rw [hav]; cases bs with
+    | nil => exact absurd rfl hne
+    | cons b t => simp
+  obtain ⟨hok, herr⟩ := RlpStream.uint_refines 8 _ hr rfl ha
+  rw [hw] at hok herr
+  simp only [decTy]
+  constructor
+  · rintro ⟨s', hs'⟩
+    cases hu : Rlp.readUint (64 / 8) bs with
+    | ok p =>
+      obtain ⟨m, rest⟩ := p
+      obtain ⟨s'', hm, _⟩ := hok m rest hu
+      rw [hs'] at hm
+      simp only [Prod.mk.injEq, Except.ok.injEq] at hm
+      exact ⟨rest, by rw [hm.1]⟩
+    | error e =>
+      obtain ⟨e', s'', hm, _⟩ := herr e hu
+      rw [hs'] at hm; simp at hm
+  · rintro ⟨rest, h⟩
+    cases hu : Rlp.readUint (64 / 8) bs with
+    | ok p =>
+      obtain ⟨m, rest'⟩ := p
+      rw [hu] at h
+      simp only [Except.ok.injEq, Prod.mk.injEq, Val.num.injEq] at h
+      obtain ⟨s', hm, _⟩ := hok m rest' hu
+      exact ⟨s', by rw [← h.1]; exact hm⟩
+    | error e => rw [hu] at h; simp at h
+
+-- non-vacuity: a fresh stream over a non-empty input is ready, re-armed and has something to read
+example : RlpStream.Ready (RlpStream.newStream [0x82, 0x01, 0x00] 3) ∧ (RlpStream.newStream [0x82, 0x01, 0x00] 3).kind = none ∧
+    1 ≤ RlpStream.avail (RlpStream.newStream [0x82, 0x01, 0x00] 3) :=
+  ⟨RlpStream.newStream_ready [0x82, 0x01, 0x00], rfl, by decide⟩
+example : decTy (.uint 64) [0x82, 0x01, 0x00] = .ok (.num 256, []) := by rfl
 
 end Aqv.Props.C11
